@@ -182,6 +182,21 @@ func collect(visit func(ctree.VisitFunc) error) ([]kv, error) {
 
 // checkSet compares a visit result with the model keys: each exactly once, right value.
 func (m *Model) checkSet(what string, got []kv, want []string) error {
+	err := m.checkSetOrdered(what, got, want)
+	if err == nil {
+		return nil
+	}
+	// Query and Walk visit in map order: name the first discrepancy in path order so that the message
+	// (and with it the shrinking of the scenario) does not depend on the order of this particular run
+	sorted := append([]kv{}, got...)
+	sort.SliceStable(sorted, func(i, j int) bool { return sorted[i].k < sorted[j].k })
+	if e := m.checkSetOrdered(what, sorted, want); e != nil {
+		return e
+	}
+	return err
+}
+
+func (m *Model) checkSetOrdered(what string, got []kv, want []string) error {
 	seen := map[string]bool{}
 	for _, e := range got {
 		if seen[e.k] {
